@@ -348,32 +348,82 @@ func ruleStickyLookup(c *Ctx, rule string) {
 		} else {
 			arg := callArgs(fin)[0]
 			okA := fromRes(arg) && dependsOn(arg, func(x ssa.Value) bool { return isFieldLoadNamed(x, "NodeSubnets") })
-			// executed whenever the held set is non-empty
-			nonEmpty := guardEdges(fn, func(v ssa.Value) (bool, int) {
-				bo, ok := v.(*ssa.BinOp)
-				if !ok || bo.Op != token.GTR {
-					return false, 0
-				}
-				call, ok := bo.X.(*ssa.Call)
-				if !ok || !nameMatch(calleeName(call), "sets.String).Len") {
-					return false, 0
-				}
-				if n, ok := constIntVal(bo.Y); !ok || n != 0 {
-					return false, 0
-				}
-				return fromRes(call.Call.Args[0]), 0
-			})
+			// executed whenever an ip is held: the Intersection lies behind the true edge of a bool flag that every recorded held
+			// ip sets (the emptiness of the held set is no such test: an empty intersection restricts too, C06.R15)
 			okE := false
-			for _, e := range nonEmpty {
-				if reachFromEdge(e, nil).has(fin) && c.reachAfter(cnt[0], nil).has(e.from.Instrs[0]) {
-					okE = true
-					// every path from that edge to a return passes the intersection
-					rr := reachFromEdge(e, newCut().instr(fin))
-					for _, ret := range returns(fn) {
-						if rr.has(ret) {
-							okE = false
+			for _, iff := range controllingIfs(fin) {
+				// a value `len(<list built from the lookup result>) > 0` is evidence of a held ip as well (the list of held ips)
+				evidence := 0
+				lenOfHeld := func(v ssa.Value) bool {
+					bo, ok := v.(*ssa.BinOp)
+					if !ok || !(bo.Op == token.GTR || bo.Op == token.NEQ) {
+						return false
+					}
+					if k, isC := constIntVal(bo.Y); !isC || k != 0 {
+						return false
+					}
+					call, ok := bo.X.(*ssa.Call)
+					if !ok {
+						return false
+					}
+					if b, isB := call.Call.Value.(*ssa.Builtin); !isB || b.Name() != "len" {
+						return false
+					}
+					if _, isSlice := call.Call.Args[0].Type().Underlying().(*types.Slice); !isSlice {
+						return false
+					}
+					if fromRes(call.Call.Args[0]) {
+						evidence++
+						return true
+					}
+					return false
+				}
+				trueIn, falseIn, isFlag := flagEdgesX(iff.Cond, lenOfHeld)
+				if !isFlag || len(trueIn)+evidence == 0 || !c.reachAfter(cnt[0], nil).has(iff) {
+					continue
+				}
+				e := edge{iff.Block(), 0}
+				if !reachFromEdge(e, nil).has(fin) {
+					continue
+				}
+				ok := true
+				// every path from the flag's true edge to a return passes the intersection
+				rr := reachFromEdge(e, newCut().instr(fin))
+				for _, ret := range returns(fn) {
+					if rr.has(ret) {
+						ok = false
+					}
+				}
+				// after a held ip has contributed its node subnets the test is reached only through an edge that sets the flag
+				contrib := 0
+				for _, k := range calls(fn, "sets.String).Insert", "sets.String).Intersection") {
+					if k == fin || loopHeaderOf(k) == nil {
+						continue
+					}
+					from := false
+					for _, a := range k.Common().Args {
+						if fromRes(a) && dependsOn(a, func(x ssa.Value) bool { return isFieldLoadNamed(x, "NodeSubnets") }) {
+							from = true
 						}
 					}
+					if !from {
+						continue
+					}
+					contrib++
+					if c.reachAfter(k, newCut().edge(trueIn...)).has(iff) {
+						ok = false
+					}
+				}
+				// and nothing clears the flag afterwards
+				for _, te := range trueIn {
+					for _, fe := range falseIn {
+						if reachFromEdge(te, nil).has(lastInstr(fe.from)) {
+							ok = false
+						}
+					}
+				}
+				if ok && (contrib > 0 || evidence > 0) {
+					okE = true
 				}
 			}
 			// and the value passed on / returned derives from the intersection
@@ -384,7 +434,7 @@ func ruleStickyLookup(c *Ctx, rule string) {
 				}
 			}
 			c.ob(rule, fn, "result intersected with the subnets of ips already held", fin, okA && okE && used,
-				fmt.Sprintf("Intersection argument derives from <lookup result>.NodeSubnets=%v; executed on the `held.Len() > 0` edge=%v; its result reaches the return=%v", okA, okE, used))
+				fmt.Sprintf("Intersection argument derives from <lookup result>.NodeSubnets=%v; executed whenever a held ip was recorded (flag set on every such path)=%v; its result reaches the return=%v", okA, okE, used))
 		}
 	}
 	// Filter keeps a node iff its subnet is in the computed set
